@@ -274,6 +274,51 @@ pub fn class_sets(rng: &mut Rng, quick: bool) -> Vec<Vec<String>> {
             push(cs, &mut out);
         }
     }
+    // the one discontinuity of `CharRange::all()`: every triple of scalar values next to the surrogate gap
+    const GAP: &[u32] = &[0xd7fc, 0xd7fd, 0xd7fe, 0xd7ff, 0xe000, 0xe001, 0xe002, 0xe003];
+    for i in 0..GAP.len() {
+        for j in i + 1..GAP.len() {
+            for k in j + 1..GAP.len() {
+                push(vec![GAP[i], GAP[j], GAP[k]], &mut out);
+            }
+        }
+    }
+    for i in 0..GAP.len() {
+        for j in i + 1..GAP.len() {
+            for k in j + 1..GAP.len() {
+                for l in k + 1..GAP.len() {
+                    if (i + j + k + l) % 3 == 0 {
+                        push(vec![GAP[i], GAP[j], GAP[k], GAP[l]], &mut out);
+                    }
+                }
+            }
+        }
+    }
+    out
+}
+
+/// words with a period nested inside a period (the inner one repeated two to four times), for the thresholds
+pub fn nested_periodic_words() -> Vec<String> {
+    let mut out = vec![];
+    for inner in ["a", "ab", "."] {
+        for n in 2..=4usize {
+            for tail in ["b", "c", "bc", ""] {
+                let unit = format!("{}{}", inner.repeat(n), tail);
+                if unit == inner.repeat(n) && tail.is_empty() && inner.len() == 1 {
+                    continue;
+                }
+                for k in 2..=3usize {
+                    out.push(unit.repeat(k));
+                    out.push(format!("x{}", unit.repeat(k)));
+                }
+            }
+        }
+    }
+    // three levels
+    out.push("aabaabcaabaabc".to_string());
+    out.push("ababcababcdababcababcd".to_string());
+    out.sort();
+    out.dedup();
     out
 }
 
